@@ -143,6 +143,9 @@ def handle_quic_packet(packet: Packet, keylog, quic_sessions: list[QuicSession],
     dcid = b""
 
     if header_type == QuicHeaderType.LONG:
+        if len(packet_payload) < 6:
+            # too short to carry a long header
+            return
         dcid_len = packet_payload[5]
         dcid = packet_payload[6: 6 + dcid_len]
         quic_vers_num = int.from_bytes(packet_payload[1:5], "big", signed=False)
